@@ -12,6 +12,7 @@ iterations are covered by the correspondence run and the implementation-side re-
 import Lean
 import Rooc.Proofs.Format
 import Rooc.Proofs.Idem
+import Rooc.Proofs.IdemText
 namespace Rooc.Props.C11
 open Rooc Rooc.Syntax Rooc.Syntax.Doc Rooc.Syntax.Proofs
 
@@ -102,7 +103,24 @@ theorem fixed_rule_is_minimal (p c : BinOp) (x y : PExp) :
   simp only [printsParenFixed, printsParen, needParenRight, needParenLeft]
   cases p <;> cases c <;> decide
 
-/-! ### the same on the printed TEXT (`fmtExp` is the printer the byte-exact diff validates) -/
+/-! ### on the printed TEXT: `fmtExp` is the printer the byte-exact diff validates -/
+
+/-- the text the printer writes is cut by the lexer into exactly the tokens of `fmtToks` (trees with plain
+names and float literals `ddd.ddd`) -/
+theorem printed_text_tokens (t : PExp) (ht : TextOK t) : lex (fmtExp t).toList = .ok (fmtToks t) :=
+  lex_fmtExp t ht
+
+/-- `parse (format t) = t` on the text, same region as `parse_format_partial` -/
+theorem parse_format_text_partial (t : PExp) (h : WF t) (ht : TextOK t) (hr : roundTrips t = true) :
+    parseText (fmtExp t).toList = .ok t := by
+  simp only [parseText, lex_fmtExp t ht, parse_format_partial t h hr]
+
+/-- the formatted TEXT of every tree parses, and the tree it parses to is formatted as the same TEXT -/
+theorem format_idem_text (t : PExp) (h : WF t) (ht : TextOK t) :
+    ∃ t', parseText (fmtExp t).toList = .ok t' ∧ fmtExp t' = fmtExp t :=
+  ⟨norm t, fmt_idem_text t h ht⟩
+
+/-! ### the same on concrete texts (`fmtExp` is the printer the byte-exact diff validates) -/
 
 /-- `x - (y - z)`, `x / (2 * y)` and `x - (y + z)` are printed without their parentheses … -/
 theorem text_dropped_parens :
